@@ -11,3 +11,5 @@ def replay(d):
 def check(run):
     run.deductive(MODULES)
     c07_native.data_and_bounded(run)
+    from checks import crosscheck
+    crosscheck.bounded_part(run, ["contracts.comparator"], ["RSMIComparator.compare_dicts"])
